@@ -27,7 +27,7 @@ func genC05Program(t *rapid.T, maxCommits int) CrashProgram {
 	var prog CrashProgram
 	n := rapid.IntRange(3, maxCommits).Draw(t, "commits")
 	nextID := 1
-	nss := []string{"d1.a", "d1.b", "d2.a"}
+	nss := []string{"d1.a", "d1.b", "d2.a", "d1.fs.files"}
 	for i := 0; i < n; i++ {
 		var cm CrashCommit
 		switch rapid.IntRange(0, 9).Draw(t, "ckind") {
